@@ -12,6 +12,10 @@ import (
 
 // compileWGSL runs the pipeline under test: Parse -> LowerWithSource -> GenerateSPIRV.
 func compileWGSL(src string, ver spirv.Version, debug bool) (bin []byte, err error) {
+	return compileWGSLOpts(src, spirv.Options{Version: ver, Debug: debug})
+}
+
+func compileWGSLOpts(src string, opts spirv.Options) (bin []byte, err error) {
 	defer func() {
 		if r := recover(); r != nil {
 			err = fmt.Errorf("panic: %v", r)
@@ -25,7 +29,7 @@ func compileWGSL(src string, ver spirv.Version, debug bool) (bin []byte, err err
 	if err != nil {
 		return nil, err
 	}
-	return naga.GenerateSPIRV(mod, spirv.Options{Version: ver, Debug: debug})
+	return naga.GenerateSPIRV(mod, opts)
 }
 
 func mustModule(t testing.TB, src string, ver spirv.Version) *Module {
